@@ -448,6 +448,12 @@ OPTIONS:
 		intf.TimestampResolution = 6
 	}
 
+	// 2^64 and 10^20 no longer fit: the unit count per second would wrap (to
+	// zero, for most values) and time conversion divides by it
+	if exp := intf.TimestampResolution.Exponent(); (intf.TimestampResolution.Binary() && exp > 63) || (!intf.TimestampResolution.Binary() && exp > 19) {
+		return fmt.Errorf("unsupported timestamp resolution %#x", uint8(intf.TimestampResolution))
+	}
+
 	//parse options
 	if intf.TimestampResolution.Binary() {
 		//negative power of 2
